@@ -101,7 +101,7 @@ SeqLess(x, y) ==
      (strict total order, consistent with Equal) are claimed there; the
      harness compares the direction only where Stated(a,b) holds.          *)
 
-RECURSIVE Equal(_, _), Less(_, _), ItemsLess(_, _), SortItems(_), SortPerm(_)
+RECURSIVE Equal(_, _)
 
 Has(items, v) == \E i \in DOMAIN items : Equal(items[i], v)
 IndexOf(items, v) == IF Has(items, v)
@@ -125,28 +125,26 @@ Equal(a, b) ==
               /\ \A j \in DOMAIN b.items : \E i \in DOMAIN a.items :
                     Equal(a.items[i], b.items[j]) /\ Equal(a.vals[i], b.vals[j])
 
+(* The order is defined in two steps.  Norm(v) is v with the elements of every
+   set and the entries of every map inside it enumerated in ascending order
+   (bottom up); LessN is the order on such normal forms; Less(a, b) is
+   LessN(Norm(a), Norm(b)).  (A model over a universe normalises each value
+   once and compares the normal forms.) *)
+RECURSIVE LessN(_, _), ItemsLessN(_, _), Norm(_)
+
 \* element-wise lexicographic: the first position holding non-Equal elements
 \* decides; when there is none the shorter sequence is first
-ItemsLess(x, y) ==
+ItemsLessN(x, y) ==
   LET m == Min2(Len(x), Len(y))
       D == {i \in 1..m : ~Equal(x[i], y[i])}
   IN IF D = {} THEN Len(x) < Len(y)
-     ELSE LET i == MinOf(D) IN Less(x[i], y[i])
+     ELSE LET i == MinOf(D) IN LessN(x[i], y[i])
 
-\* SortPerm(items)[p] = index in items of the p-th smallest element (items are
-\* pairwise non-Equal, Less is total on them: ranks are distinct)
-SortPerm(items) ==
-  LET n == Len(items)
-      R(i) == 1 + Cardinality({j \in 1..n : Less(items[j], items[i])})
-  IN [p \in 1..n |-> CHOOSE i \in 1..n : R(i) = p]
-SortItems(items) == LET sp == SortPerm(items) IN [p \in 1..Len(items) |-> items[sp[p]]]
+\* map entries flattened <<k1, v1, k2, v2, ...>>
+Entries(m) == [q \in 1..(2 * Len(m.items)) |->
+                 IF q % 2 = 1 THEN m.items[(q + 1) \div 2] ELSE m.vals[q \div 2]]
 
-\* map entries in ascending key order, flattened <<k1, v1, k2, v2, ...>>
-Entries(m) == LET sp == SortPerm(m.items) IN
-  [q \in 1..(2 * Len(m.items)) |->
-     IF q % 2 = 1 THEN m.items[sp[(q + 1) \div 2]] ELSE m.vals[sp[q \div 2]]]
-
-Less(a, b) ==
+LessN(a, b) ==
   IF Rank(a) # Rank(b) THEN Rank(a) < Rank(b)
   ELSE CASE a.k = "null" -> FALSE
          [] IsNum(a) -> NumCmp(a, b) < 0                  \* numeric, ints and decimals together
@@ -154,9 +152,29 @@ Less(a, b) ==
          [] a.k = "str" -> SeqLess(a.s, b.s)              \* code points, prefix first
          [] a.k = "date" -> SeqLess(a.s, b.s)             \* chronological (fixed width stamp)
          [] a.k = "pat" -> SeqLess(a.s, b.s)
-         [] a.k = "list" -> ItemsLess(a.items, b.items)   \* element-wise lexicographic
-         [] a.k = "set" -> ItemsLess(SortItems(a.items), SortItems(b.items))
-         [] a.k = "map" -> ItemsLess(Entries(a), Entries(b))
+         [] a.k = "list" -> ItemsLessN(a.items, b.items)  \* element-wise lexicographic
+         [] a.k = "set" -> ItemsLessN(a.items, b.items)   \* (elements already ascending)
+         [] a.k = "map" -> ItemsLessN(Entries(a), Entries(b))
+
+\* SortPermN(items)[p] = index in items of the p-th smallest element (items are
+\* normal forms, pairwise non-Equal, LessN is total on them: ranks are distinct)
+SortPermN(items) ==
+  LET n == Len(items)
+      R(i) == 1 + Cardinality({j \in 1..n : LessN(items[j], items[i])})
+  IN [p \in 1..n |-> CHOOSE i \in 1..n : R(i) = p]
+
+Norm(v) ==
+  IF v.k \notin {"list", "set", "map"} THEN v
+  ELSE LET its == [i \in 1..Len(v.items) |-> Norm(v.items[i])]
+           vs  == [i \in 1..Len(v.vals) |-> Norm(v.vals[i])]
+       IN IF v.k = "list" THEN Mk("list", NoN, << >>, its, << >>)
+          ELSE LET sp == SortPermN(its) IN
+               Mk(v.k, NoN, << >>, [p \in 1..Len(its) |-> its[sp[p]]],
+                  [p \in 1..Len(vs) |-> vs[sp[p]]])
+
+Less(a, b) == LessN(Norm(a), Norm(b))
+\* the elements of a set / keys of a map in ascending order
+SortItems(items) == Norm(VSet(items)).items
 
 \* the pairs whose order the C07 statement names
 RECURSIVE Stated(_, _)
@@ -244,7 +262,7 @@ TxtFALSE == <<70, 65, 76, 83, 69>>
 TxtSep   == <<44, 32>>            \* ", "
 TxtArrow == <<32, 61, 62, 32>>    \* " => "
 
-RECURSIVE Render(_), Join(_, _)
+RECURSIVE RenderN(_), Join(_, _)
 Join(ts, sep) == IF Len(ts) = 0 THEN << >>
                  ELSE IF Len(ts) = 1 THEN ts[1]
                  ELSE ts[1] \o sep \o Join(Tail(ts), sep)
@@ -256,7 +274,8 @@ Pad(open, inner, close) ==
       r == IF inner # << >> /\ inner[Len(inner)] = 62 THEN <<32>> ELSE << >>
   IN open \o l \o inner \o r \o close
 
-Render(v) ==
+\* text of a normal form: sets and maps are written in their (ascending) order
+RenderN(v) ==
   CASE v.k = "null" -> TxtNULL
     [] v.k = "bool" -> IF v.n[1] = 1 THEN TxtTRUE ELSE TxtFALSE
     [] IsNum(v) -> (IF IsNeg(v) THEN <<45>> ELSE << >>) \o Numeral(v)
@@ -264,25 +283,24 @@ Render(v) ==
     [] v.k = "date" -> v.s
     [] v.k = "pat" -> <<47, 47>> \o v.s \o <<47, 47>>
     [] v.k = "list" ->
-         <<91>> \o Join([i \in 1..Len(v.items) |-> Render(v.items[i])], TxtSep) \o <<93>>
+         <<91>> \o Join([i \in 1..Len(v.items) |-> RenderN(v.items[i])], TxtSep) \o <<93>>
     [] v.k = "set" ->
-         LET srt == SortItems(v.items) IN
-         Pad(<<60, 60>>, Join([i \in 1..Len(srt) |-> Render(srt[i])], TxtSep), <<62, 62>>)
+         Pad(<<60, 60>>, Join([i \in 1..Len(v.items) |-> RenderN(v.items[i])], TxtSep), <<62, 62>>)
     [] v.k = "map" ->
-         LET sp == SortPerm(v.items) IN
          Pad(<<60, 60, 60>>,
-             Join([p \in 1..Len(sp) |->
-                     Render(v.items[sp[p]]) \o TxtArrow \o Render(v.vals[sp[p]])], TxtSep),
+             Join([p \in 1..Len(v.items) |->
+                     RenderN(v.items[p]) \o TxtArrow \o RenderN(v.vals[p])], TxtSep),
              <<62, 62, 62>>)
+Render(v) == RenderN(Norm(v))
 
-\* The token sequence the scanner must deliver for Render(v): [t: type, s: payload]
+\* The token sequence the scanner must deliver for the text: [t: type, s: payload]
 Tok(t, s) == [t |-> t, s |-> s]
 TComma == Tok("interpunction", <<44>>)
-RECURSIVE Tokens(_), JoinT(_, _)
+RECURSIVE TokensN(_), JoinT(_, _)
 JoinT(ts, sep) == IF Len(ts) = 0 THEN << >>
                   ELSE IF Len(ts) = 1 THEN ts[1]
                   ELSE ts[1] \o sep \o JoinT(Tail(ts), sep)
-Tokens(v) ==
+TokensN(v) ==
   CASE v.k = "null" -> <<Tok("identifier", TxtNULL)>>
     [] v.k = "bool" -> <<Tok("boolean", IF v.n[1] = 1 THEN TxtTRUE ELSE TxtFALSE)>>
     [] IsNum(v) -> (IF IsNeg(v) THEN <<Tok("operator", <<45>>)>> ELSE << >>)
@@ -292,20 +310,19 @@ Tokens(v) ==
     [] v.k = "pat" -> <<Tok("pattern", <<47, 47>> \o v.s \o <<47, 47>>)>>
     [] v.k = "list" ->
          <<Tok("interpunction", <<91>>)>>
-         \o JoinT([i \in 1..Len(v.items) |-> Tokens(v.items[i])], <<TComma>>)
+         \o JoinT([i \in 1..Len(v.items) |-> TokensN(v.items[i])], <<TComma>>)
          \o <<Tok("interpunction", <<93>>)>>
     [] v.k = "set" ->
-         LET srt == SortItems(v.items) IN
          <<Tok("interpunction", <<60, 60>>)>>
-         \o JoinT([i \in 1..Len(srt) |-> Tokens(srt[i])], <<TComma>>)
+         \o JoinT([i \in 1..Len(v.items) |-> TokensN(v.items[i])], <<TComma>>)
          \o <<Tok("interpunction", <<62, 62>>)>>
     [] v.k = "map" ->
-         LET sp == SortPerm(v.items) IN
          <<Tok("interpunction", <<60, 60, 60>>)>>
-         \o JoinT([p \in 1..Len(sp) |->
-                     Tokens(v.items[sp[p]]) \o <<Tok("interpunction", <<61, 62>>)>>
-                     \o Tokens(v.vals[sp[p]])], <<TComma>>)
+         \o JoinT([p \in 1..Len(v.items) |->
+                     TokensN(v.items[p]) \o <<Tok("interpunction", <<61, 62>>)>>
+                     \o TokensN(v.vals[p])], <<TComma>>)
          \o <<Tok("interpunction", <<62, 62, 62>>)>>
+Tokens(v) == TokensN(Norm(v))
 
 -----------------------------------------------------------------------------
 (* Reading a quoted string back: the scanner's single-quote states (lexer.py
